@@ -421,7 +421,7 @@ fn verdict(prog: &Prog, out: &ModelOut) -> Option<(String, String)> {
             return Some(("lost-wakeup".into(), format!("program {}: after {} executions loom found a schedule in which the consumer is blocked forever (no thread can run): {p}", prog.name(), out.executions)));
         }
         if p.contains("exceeded") {
-            return Some(("no-progress".into(), format!("program {}: {p}", prog.name())));
+            return Some(("poll:does-not-return".into(), format!("program {}: loom gave up on an execution that keeps branching without end (a thread spins inside one call instead of parking or returning): {p}", prog.name())));
         }
         if p.contains("/loom-") {
             vcore::machinery_error(&format!("loom failed internally on {}: {p}", prog.name()));
@@ -459,6 +459,9 @@ fn main() {
                 println!("  {}", arr[1].as_str().unwrap_or(""));
                 r.violation(arr[0].as_str().unwrap_or("other"), arr[1].as_str().unwrap_or(""), case.clone());
             }
+        } else if let Some(l) = c.stderr_tail.lines().find(|l| l.contains("WORKER-PANIC") && l.contains("exceeded")).filter(|_| c.signal == Some(6)) {
+            println!("  loom reports: {}", l.trim());
+            r.violation("poll:does-not-return", "a thread spins inside one call (loom: branch bound exceeded)", case.clone());
         } else if let Some(l) = c.stderr_tail.lines().find(|l| l.contains("WORKER-PANIC") && l.to_lowercase().contains("deadlock")).filter(|_| c.signal == Some(6)) {
             println!("  loom reports: {}", l.trim());
             r.violation("lost-wakeup", "the consumer is blocked forever and nothing can run (loom deadlock)", case.clone());
@@ -524,6 +527,14 @@ fn main() {
         let Some(line) = so.lines().find_map(|l| l.strip_prefix("WORKER-RESULT ")).filter(|_| c.exit_code == Some(0)) else {
             // aborted while loom was reporting a deadlock: that IS the finding (consumer blocked forever)
             let first_panic = c.stderr_tail.lines().find(|l| l.contains("WORKER-PANIC") && l.to_lowercase().contains("deadlock")).unwrap_or("").to_string();
+            let spin = c.stderr_tail.lines().find(|l| l.contains("WORKER-PANIC") && l.contains("exceeded")).map(|l| l.trim().to_string());
+            if let (Some(6), Some(sp)) = (c.signal, &spin) {
+                r.eval(1);
+                r.transitions.fetch_add(1, Ordering::Relaxed);
+                r.states.fetch_add(1, Ordering::Relaxed);
+                r.violation("poll:does-not-return", &format!("program {}: loom gave up on an execution that keeps branching without end (a thread spins inside one call instead of parking or returning): {sp}", prog.name()), case_json(prog, bound));
+                continue;
+            }
             if c.signal == Some(6) && first_panic.to_lowercase().contains("deadlock") {
                 r.eval(1);
                 r.transitions.fetch_add(1, Ordering::Relaxed);
